@@ -260,6 +260,7 @@ package checkers
 //@   call WarnFixable requires @fix-range-is-the-comment payload(arg1) == comment && arg2.From == commentPos(comment) && arg2.To == commentEnd(comment) && arg2.From <= arg2.To
 //@   call WarnFixable requires @replacement-inserts-one-space hasPrefix(comment.Text, "//") ==> asString(arg2.Replacement) == "// " ++ substr(comment.Text, 2, len(comment.Text))
 //@   call WarnFixable requires @replacement-is-a-comment-that-no-longer-warns hasPrefix(comment.Text, "//") ==> (hasPrefix(asString(arg2.Replacement), "// ") && len(asString(arg2.Replacement)) == len(comment.Text) + 1)
+//@   call WarnFixable requires @replacement-bytes-belong-to-this-fix-alone fresh(arg2.Replacement)
 
 // ---- C20: API-specific diagnostics are about the real API, not a namesake
 
